@@ -1,6 +1,7 @@
 (* C04 — conversions deep-copy by default and never modify or race on the source. *)
 From Coq Require Import List NArith ZArith Bool.
 From GV Require Import Base Ty Conf Val Plan Eval EvalFacts AllocFacts FreshFacts.
+From GV Require Extracted Gen GenFacts.
 Import ListNotations.
 Open Scope N_scope.
 
@@ -39,7 +40,25 @@ Theorem C04_function_results_fresh : forall e fuel t tok st v st' ok, mark e fue
   st <= st' /\ forall a, In a (addrs v) -> st <= a < st'.
 Proof. exact mark_fresh. Qed.
 
+(* which plans the generator may choose: the SkipCopy plan (the one C04_share_returns_source is about) is selected only
+   when skipCopySameType is in effect for the method AND source and target type are identical — for every
+   environment, settings record, method index and pair of types (the rule list and the Matches predicates are
+   regenerated from the Go source) *)
+Theorem C04_skipcopy_only_with_setting_and_identical_types : forall e hm conf s t,
+  Gen.first_rule e hm conf s t = Some 1 -> cc_SkipCopySameType conf = true /\ s = t.
+Proof. exact GenFacts.skipcopy_rule_sound. Qed.
+Theorem C04_no_skipcopy_without_setting : forall e hm conf s t,
+  cc_SkipCopySameType conf = false -> Gen.first_rule e hm conf s t <> Some 1.
+Proof. exact GenFacts.skipcopy_rule_off. Qed.
+(* ... and the address-of a converted value (T -> *T) is never an address of the source: the aliasing form of PRef is
+   not generated (finding F-C04-2, fixed by f2ba6e9: before, skipCopySameType + T -> *T emitted &source.F / &source[i]) *)
+Theorem C04_address_of_never_aliases : forall lv p, Gen.aliasing lv p = false.
+Proof. exact GenFacts.never_aliasing. Qed.
+
 Print Assumptions C04_alloc_mono.
+Print Assumptions C04_skipcopy_only_with_setting_and_identical_types.
+Print Assumptions C04_no_skipcopy_without_setting.
+Print Assumptions C04_address_of_never_aliases.
 Print Assumptions C04_pointer_fresh.
 Print Assumptions C04_slice_fresh.
 Print Assumptions C04_map_fresh.
